@@ -197,9 +197,10 @@ def applyLTuple (fams : List Fam) (t : Nat × Nat) : List Fam :=
 
 /-- reset of what the previous session negotiated (first lines of the GR part of `stateChange`) -/
 def resetNegotiated (p : Peer) : Peer :=
-  { p with enabled := false, notif := false, longLived := false,
+  { p with enabled := false, notif := false, longLived := false, restartTime := 0,
            fams := p.fams.map (fun f => { f with mpEnabled := f.mpCfg, mpReceived := false,
-                                                 llEnabled := false, llReceived := false }) }
+                                                 llEnabled := false, llReceived := false,
+                                                 llTime := 0 }) }
 
 /-- `fsm.stateChange(ESTABLISHED)`: negotiated GR / LLGR state from the received OPEN -/
 def stateChangeEst (p0 : Peer) (c : Caps) : Peer :=
